@@ -31,8 +31,33 @@ func (x *Exec) execBlock(st *State, stmts []ast.Stmt) *State {
 			return nil
 		}
 		st = x.execStmt(st, s)
+		x.compactHeap(st)
 	}
 	return st
+}
+
+// compactHeap names heap arrays whose term has grown large (after each
+// statement, on the live state only) so that later reads do not embed long
+// store chains.
+func (x *Exec) compactHeap(st *State) {
+	if st == nil {
+		return
+	}
+	for _, key := range sortedKeys(st.heap) {
+		v := st.heap[key]
+		if len(v) > 240 {
+			n := x.d.freshName("H_" + key)
+			x.d.declareConst(n, x.d.heapSorts[key])
+			st.assume(eq(n, v))
+			st.heap[key] = n
+		}
+	}
+	if len(st.alloc) > 240 {
+		n := x.d.freshName("alloc")
+		x.d.declareConst(n, "(Array Int Bool)")
+		st.assume(eq(n, st.alloc))
+		st.alloc = n
+	}
 }
 
 func (x *Exec) execStmt(st *State, s ast.Stmt) *State {
